@@ -93,11 +93,15 @@ def judge_default(case):
             for scale_rho in (1.0, 1e-3):
                 r = rho * scale_rho
                 ws = []
+                nat = 0.0
                 for dphi in (0.0, 1.3, 2.9):
                     p = (r * math.cos(phi + dphi), r * math.sin(phi + dphi), z)
                     val = complex(peval(C, p), peval(Sn, p) if Sn else 0.0)
                     ws.append(val / complex(p[0], p[1]) ** m)
-                mag = max(abs(w) for w in ws) + 1e-300
+                    # magnitude of the terms that are added up (the common factor itself vanishes on the nodal cones of the
+                    # harmonic, e.g. 4 z^2 = rho^2 for l = 3, m = 1: judging relative to it would compare noise with noise)
+                    nat = max(nat, sum(abs(c_) * abs(p[0]) ** a * abs(p[1]) ** b * abs(p[2]) ** c for (a, b, c), c_ in C.items()) / r ** m)
+                mag = max(max(abs(w) for w in ws), nat) + 1e-300
                 if max(abs(w.imag) for w in ws) > 1e-9 * mag:
                     return v.fail(f"l={l} m={m}: C+iS is not (x+iy)^m times a real factor at rho={r}, z={z}")
                 if max(abs(w - ws[0]) for w in ws) > 1e-9 * mag:
